@@ -46,7 +46,8 @@ class ARTimeSeriesRegressor(BaseTimeSeries, TimeSeriesRegressorMixin):
             use_all_past=use_all_past,
             preprocessing=preprocessing,
         )
-        if estimator == "dummy":
+        self.estimator = estimator
+        if isinstance(estimator, str) and estimator == "dummy":
             self.estimator = DummyTimeSeriesRegressor(
                 past=past, delay1=delay1, delay2=delay2, use_all_past=use_all_past
             )
